@@ -495,9 +495,31 @@ pub fn gen_case(d: &mut Draw, n_subsets: usize, n_table: usize) -> Case {
             shapes::wrap(d, m, copies)
         }
     };
-    let cycles = 6 + d.below(9) as usize;
+    let is_cone = classes.contains("shape:big_cone");
+    let cycles = if is_cone { 10 + d.below(10) as usize } else { 6 + d.below(9) as usize };
     let mut stim = gen_stimulus(d, &design, cycles);
-    if d.chance(1, 3) || classes.contains("shape:big_cone") {
+    if is_cone || d.chance(1, 4) {
+        // a small pool of input vectors (the all-zero one among them now and
+        // then: the state before the first `set`), visited again and again:
+        // holds and returns are what a gated cone can get wrong
+        let first = stim.steps.iter().position(|s| !s.reset).unwrap_or(0);
+        let mut pool: Vec<Vec<num_bigint::BigUint>> = vec![];
+        if let Some(s) = stim.steps.get(first) {
+            pool.push(s.values.clone());
+        }
+        if d.bool() {
+            pool.push(stim.inputs.iter().map(|_| num_bigint::BigUint::default()).collect());
+        }
+        for i in first + 1..stim.steps.len() {
+            if pool.len() < 3 && d.chance(1, 3) {
+                pool.push(stim.steps[i].values.clone());
+            } else if !pool.is_empty() && d.chance(2, 3) {
+                stim.steps[i].values = d.pick(&pool).clone();
+            }
+        }
+        classes.insert("stim:pooled_inputs".into());
+    }
+    if d.chance(1, 3) {
         // hold all inputs over runs of steps (a gated cone can only be skipped then)
         for i in 1..stim.steps.len() {
             if d.chance(1, 2) {
@@ -506,7 +528,7 @@ pub fn gen_case(d: &mut Draw, n_subsets: usize, n_table: usize) -> Case {
         }
         classes.insert("stim:held_inputs".into());
     }
-    if d.chance(1, 3) || classes.contains("shape:big_cone") {
+    if d.chance(1, 3) {
         // come back to the input values of an earlier step
         for i in 2..stim.steps.len() {
             if d.chance(1, 3) {
@@ -1086,10 +1108,18 @@ pub fn evaluate(run: &Run, case: &Case, dce_excluded: bool) -> Outcome {
     if let Some((msg, input)) = run.cache.lock().unwrap().get(&sig).cloned() {
         return Outcome::fail(sig, msg, input);
     }
-    let budget = std::env::var("C03_MIN_BUDGET").ok().and_then(|s| s.parse().ok()).unwrap_or(150usize);
+    let budget = std::env::var("C03_MIN_BUDGET").ok().and_then(|s| s.parse().ok()).unwrap_or(100usize);
     let mut n = 0;
+    // minimisation only shapes the reproducer, never the verdict: it also
+    // stops after a wall-clock allowance (a loaded machine must not turn a
+    // found difference into a watchdog time-out)
+    let min_start = Instant::now();
+    let min_allow = Duration::from_secs(std::env::var("C03_MIN_SECONDS").ok().and_then(|s| s.parse().ok()).unwrap_or(240));
     let mut pred = |dsg: &Design, st: &Stimulus| {
         n += 1;
+        if n > 1 && min_start.elapsed() > min_allow {
+            return false;
+        }
         let t = format!("{}{tb_text}", print_design(dsg));
         rerun_pair(&sc.path, &format!("min{n}"), &t, st, &df.engine, tb, &cset, &df.what).is_some()
     };
@@ -1150,7 +1180,7 @@ pub fn run(ctx: &Ctx) {
     ctx.run_payloads("recorded", replay_recorded);
     let n = std::env::var("C03_CASES").ok().and_then(|s| s.parse::<usize>().ok()).unwrap_or(ctx.scale(128, 3000));
     let threads = std::env::var("C03_THREADS").ok().and_then(|s| s.parse::<usize>().ok()).unwrap_or(0);
-    let cfg = CaseCfg::cases(n).choices(10_000).shrink_iters(std::env::var("C03_SHRINK").ok().and_then(|s| s.parse().ok()).unwrap_or(6)).timeout_s(1500).threads(threads);
+    let cfg = CaseCfg::cases(n).choices(10_000).shrink_iters(std::env::var("C03_SHRINK").ok().and_then(|s| s.parse().ok()).unwrap_or(6)).timeout_s(3600).threads(threads);
     // the run's table of toggle subsets: drawn from a choice sequence seeded
     // by VERIF_SEED; a case draws indices into it (index 0 when its own
     // sequence is exhausted), so that the subset workers can be long-lived
